@@ -7,13 +7,19 @@ for mp in sorted(glob.glob("/verif/seeded/*/meta.json")):
     note = ""
     np_ = os.path.join(os.path.dirname(mp), "notes.md")
     if os.path.exists(np_):
-        for l in open(np_):
-            if l.lower().startswith("change:"):
-                note = l[7:].strip()
+        lines = [l.strip() for l in open(np_) if l.strip()]
+        for l in lines:
+            if l.lower().startswith(("change:", "**change", "- change", "* change")):
+                note = l.split(":", 1)[1].strip(" *")
                 break
+        if not note and lines:
+            note = lines[0].lstrip("# ").strip()
     q = m.get("runs", {}).get("quick", {}); t = m.get("runs", {}).get("thorough", {})
     cq = q.get("caught_by", []); ct = [p for p in t.get("caught_by", []) if p not in cq]
     own = m["property"]
+    if m.get("harmless_after"):
+        rows.append("| %s | no longer breaks the property after %s (harmless-rewrite control) | no alarm (correct) | - | - | %s |" % (m["id"], m["harmless_after"], note[:160].replace("|", "/")))
+        continue
     status = "quick" if own in cq else ("thorough" if own in ct else ("other checks only" if cq or ct else "MISSED"))
     rows.append("| %s | %s | %s | %s | %s | %s |" % (m["id"], "yes" if m.get("confirmed") else "NO", status, " ".join(cq) or "-", " ".join(ct) or "-", note[:160].replace("|", "/")))
 print("| seed | confirmed | own check | caught by (quick) | additionally (thorough) | change |\n|---|---|---|---|---|---|")
